@@ -5,11 +5,12 @@ try:
 except ImportError:
     pass
 import numpy as np
+import os
 
 from functools import partial
 from pathlib import Path
 from scipy.special import logsumexp
-from shutil import get_terminal_size
+from shutil import copyfile, get_terminal_size
 from threadpoolctl import threadpool_limits
 from time import time
 from warnings import warn
@@ -1271,16 +1272,16 @@ class Sampler():
         if filepath.suffix not in ['.h5', '.hdf5']:
             raise ValueError("File ending must '.h5' or '.hdf5'.")
 
-        if filepath.exists():
-            if not overwrite:
-                raise RuntimeError(
-                    "File {} already exists.".format(str(filepath)))
-            else:
-                filepath.unlink()
+        if filepath.exists() and not overwrite:
+            raise RuntimeError(
+                "File {} already exists.".format(str(filepath)))
 
         filepath.parent.mkdir(parents=True, exist_ok=True)
 
-        fstream = h5py.File(filepath, 'x')
+        # Write to a temporary file and move it into place afterwards such
+        # that an interrupted write never leaves a missing or partial file.
+        filepath_tmp = filepath.with_name(filepath.name + '.tmp')
+        fstream = h5py.File(filepath_tmp, 'w')
         group = fstream.create_group('sampler')
 
         for key in ['n_dim', 'n_live', 'n_update', 'n_like_new_bound',
@@ -1328,6 +1329,7 @@ class Sampler():
         group.attrs['rng_uinteger'] = rng_state['uinteger']
 
         fstream.close()
+        os.replace(filepath_tmp, filepath)
 
     def write_shell_update(self, filepath, shell):
         """Update the sampler data for a single shell.
@@ -1342,7 +1344,13 @@ class Sampler():
         """
         if shell < 0:
             shell = len(self.bounds) + shell
-        fstream = h5py.File(Path(filepath), 'r+')
+
+        # Update a copy and move it into place afterwards such that an
+        # interrupted update never leaves a partially updated file.
+        filepath = Path(filepath)
+        filepath_tmp = filepath.with_name(filepath.name + '.tmp')
+        copyfile(filepath, filepath_tmp)
+        fstream = h5py.File(filepath_tmp, 'r+')
         group = fstream['sampler']
 
         for key in ['n_like', '_discard_exploration', 'shell_n',
@@ -1374,3 +1382,4 @@ class Sampler():
         group.attrs['rng_uinteger'] = rng_state['uinteger']
 
         fstream.close()
+        os.replace(filepath_tmp, filepath)
